@@ -423,8 +423,10 @@ inline void initStripeState(
       stripeEnd = end;
     } else {
       Wide perStripe = totalRange / static_cast<Wide>(numWorkers);
-      Wide endWide = static_cast<Wide>(start) + static_cast<Wide>(i + 1) * perStripe;
-      stripeEnd = alignDownStripe(static_cast<IntegerT>(endWide), state.granularity);
+      // Align the stripe's offset from start (not its absolute end) so that interior boundaries
+      // stay on multiples of granularity relative to the range start.
+      Wide offWide = alignDownStripe(static_cast<Wide>(i + 1) * perStripe, state.granularity);
+      stripeEnd = static_cast<IntegerT>(static_cast<Wide>(start) + offWide);
       if (stripeEnd <= cursor) {
         stripeEnd = cursor;
       }
